@@ -103,4 +103,15 @@ CHECKS = {
                              "alphabet {a, b, blank}; longer strings and other bytes are not explored"],
                 explanation="every string up to the bound x every separator / pattern / replacement of length <= 3, every small element list x "
                             "infix, real functions vs naive single-pass references and the algebraic laws"),
+    "C18": dict(src=["checks/C18.cpp"], nitro=[], variants=PLAIN_ASAN, runs=both, deadline_s={"quick": 300, "thorough": 900},
+                assumptions=["canonical state = which payload type each slot / vector element owns (payload ids do not influence behaviour)",
+                             "self move-assignment is not exercised (unspecified); exact payload accounting replaces LeakSanitizer",
+                             "pool sizes: 3 quaint_ptr slots + vector of <= 3, 2 optionals over values {1,2}"],
+                explanation="explicit-state BFS to a fixpoint over operation histories on real quaint_ptr / optional objects against an "
+                            "ownership table / std::optional reference"),
+    "C20": dict(src=["checks/C20.cpp"], nitro=[], variants=PLAIN_ASAN, runs=both, deadline_s={"quick": 300, "thorough": 600},
+                assumptions=["lengths 0..4; element type with a live-set so that a destroyed temporary is visible (plus ASan)",
+                             "for built-in arrays reverse() yields reference wrappers; aliasing is judged on the wrapped element"],
+                explanation="container kinds x lengths x value categories x adaptors x iteration styles, each executed on the real adaptors; "
+                            "order, indices, aliasing (address and write-through) and element lifetime are judged"),
 }
